@@ -36,15 +36,14 @@ struct Eng : public MasterEventEngine {
     int cancel_wait() override { cancels++; return 0; }
 };
 static Raw<Eng> ENG;
-// clock source stand-in (ir2c --map clock_gettime): any time not earlier than the runtime clock
-extern "C" NOINL int verif_clock_gettime(clockid_t, struct timespec* tv)
+// clock source stand-in (ir2c --map of photon::update_now, i.e. clock_gettime + the us conversion): the refreshed runtime clock is any
+// value not earlier than the current one
+extern "C" NOINL uint64_t verif_update_now()
 {
-    uint64_t s = nondet_u64(), ns = nondet_u32(); ASSUME(ns < 1000000000u);
-    ASSUME(s * 1000000ull + ns / 1000 >= photon::now);
-    tv->tv_sec = (time_t)s; tv->tv_nsec = (long)ns;
-    return 0;
+    uint64_t c = nondet_u64(); ASSUME(c >= photon::now);
+    photon::now = c;
+    return c;
 }
-
 static void init_thread(thread* t, uint16_t st)
 {   // zero-initialised static storage + the fields thread's constructor sets
     t->__prev_ptr = t->__next_ptr = t;
@@ -57,7 +56,7 @@ static vcpu_t* init_vcpu(int cap)
     vc->state = states::RUNNING; vc->flags = 0;
     vc->sleepq.q.reserve(cap);
     // the clock: either a timestamp updater thread is running (if_update_now() is a no-op, photon::now is whatever it last stored),
-    // or the scheduler refreshes it itself from rdtsc (arbitrary) + clock_gettime (verif_clock_gettime: arbitrary monotone)
+    // or the scheduler refreshes it itself when rdtsc (arbitrary) moved, through update_now() (verif_update_now: arbitrary monotone)
     ts_updater.store(nondet_bool() ? 1 : 0);
     return vc;
 }
@@ -171,7 +170,7 @@ extern "C" void harness_resume()
 // =====================================================================================================================
 #if defined(H_SEQ) || defined(H_IDLER)
 #ifndef NEV
-#define NEV 3               // events of the other side per switch-out
+#define NEV 2               // interrupts of the other side per switch-out (1: before the scheduling round, 2: + one after it, 3: + a second one before)
 #endif
 #define ME (&TH0.v)
 #define OTHER (&TH1.v)      // the thread that runs while ME is switched out (stands for the idler / any other thread of the vCPU)
@@ -179,6 +178,7 @@ extern "C" void harness_resume()
 static int n_intr;          // interrupts issued against ME during the current blocking call
 static int reason[NEV + 1];
 static bool woke_sleeper;
+static int call_no;         // 1, 2: which blocking call of ME is in progress
 
 static void interrupt_me(bool cross)
 {
@@ -197,15 +197,26 @@ extern "C" NOINL void verif_switch(thread* from, thread* to)
     CHECK(CURRENT == to && to->state == states::RUNNING, "the switch target is current and RUNNING");
     CHECK(from->state != states::RUNNING, "the thread switched out is not RUNNING");
 #ifdef H_SEQ
-    for (int s = 0; s < NEV; s++) {
-        uint8_t ev = nondet_u8();
-        if (ev == 0) break;
-        else if (ev == 1) interrupt_me(false);
-        else if (ev == 2) interrupt_me(true);
-        else if (ev == 3) { uint64_t c = nondet_u64(); ASSUME(c >= photon::now); photon::now = c; }
-        else if (ev == 4) { RunQ rq; resume_threads(vc, rq); }
-        else ASSUME(false);
+    // the other side's script while "from" is switched out.  Canonical order (a resume_threads() round that finds nobody due is a
+    // no-op - harness_resume - so more rounds add nothing): interrupts that find the thread SLEEPING / STANDBY / already READY,
+    // the clock advancing, one scheduling round, an interrupt that finds the thread READY after the round, then the yield back.
+    bool ia = nondet_bool(), ca = nondet_bool(), adv = nondet_bool(), ib = nondet_bool(), cb = nondet_bool();
+#ifdef FIRST          // the first call's wake-up cause fixed per job (keeps the state before the second call almost concrete)
+    if (call_no == 1) {
+        ia = (FIRST == 1 || FIRST == 2); ca = (FIRST == 2);      // 1: same-vCPU interrupt while sleeping, 2: cross-vCPU interrupt
+        if (FIRST == 0 || FIRST == 3) adv = true;                // 0: plain timeout, 3: timeout, then an interrupt before the thread runs
+        ib = (FIRST == 3);
     }
+#endif
+    if (ia) interrupt_me(ca);
+#if NEV >= 3
+    if (nondet_bool()) interrupt_me(nondet_bool());
+#endif
+    if (adv) { uint64_t c = nondet_u64(); ASSUME(c >= photon::now); photon::now = c; }
+    { RunQ rq; resume_threads(vc, rq); }
+#if NEV >= 2
+    if (ib) interrupt_me(cb);
+#endif
 #endif
     // the running thread gives up the processor (an unrelated woken sleeper runs and yields, too); executions in which "from" is next
     for (int s = 0; s < 2; s++) {
@@ -214,11 +225,27 @@ extern "C" NOINL void verif_switch(thread* from, thread* to)
         if (CURRENT == SLEEPER) woke_sleeper = true;
     }
     ASSUME(CURRENT == from && from->state == states::RUNNING);
+#ifdef H_SEQ
+    // "cut": what must hold whenever a thread runs again is CHECKed and then re-stated as plain assignments (no-ops when the checks
+    // hold; when one fails it is reported) - the next call then starts from a concrete run list instead of a case distinction
+    CURRENT = from; from->state = states::RUNNING;
+    CHECK(from->idx == -1, "a thread that runs again is out of the sleep heap (idx == -1)"); from->idx = -1;
+    CHECK(from->waitq == nullptr, "a thread that runs again is in no wait queue"); from->waitq = nullptr;
+    CHECK(vc->standbyq.node == nullptr, "standbyq drained before the thread runs again"); vc->standbyq.node = nullptr;
+    CHECK(!from->lock.locked() && !OTHER->lock.locked() && !vc->standbyq.lock.locked(), "no scheduler lock is held across a switch");
+    from->lock.unlock(); OTHER->lock.unlock(); vc->standbyq.lock.unlock(); vc->runq_lock.foreground_unlock();
+#ifndef WITH_SLEEPER
+    CHECK(OTHER->state == states::READY, "the thread that yielded is READY"); OTHER->state = states::READY;
+    CHECK(from->next() == OTHER && from->prev() == OTHER && OTHER->next() == from && OTHER->prev() == from, "run list = {resumed thread, the other one}");
+    from->__next_ptr = from->__prev_ptr = OTHER; OTHER->__next_ptr = OTHER->__prev_ptr = from;
+    CHECK(vc->sleepq.empty(), "sleep heap empty again"); vc->sleepq.q.clear();
+#endif
+#endif
 }
 #endif
 
 #ifdef H_SEQ
-static void begin_call() { n_intr = 0; errno = 0; }
+static void begin_call() { n_intr = 0; errno = 0; call_no++; }
 static bool is_reason(int e) { for (int i = 0; i <= NEV; i++) if (i < n_intr && reason[i] == e) return true; return false; }
 static void check_sleep(int r, uint64_t c_begin, uint64_t x, bool shutting)
 {
@@ -245,6 +272,9 @@ static void check_yield(int r)
 static int do_sleep(bool& shutting, uint64_t& c_begin, uint64_t& x)
 {
     x = nondet_u64(); c_begin = photon::now;
+#ifdef REAL1          // the first sleep is a real one (deadline in the future): the expired-timeout path is thread_yield, see SCN 1 / 3
+    if (call_no == 0) ASSUME(x != 0 && c_begin + x > c_begin);
+#endif
     shutting = ME->is_shutting_down();
     begin_call();
     return thread_usleep(Timeout(x));
@@ -277,9 +307,15 @@ extern "C" void harness_seq()
     if (r) WITNESS("first call: yield reported an interrupt"); else WITNESS("first call: yield returned 0");
 #else
     r = do_sleep(sh, c0, x); check_sleep(r, c0, x, sh);
+#if !defined(FIRST) || FIRST == 0
     if (r == 0) WITNESS("first call: slept well");
+#endif
+#if !defined(FIRST) || FIRST != 0
     if (r == -1 && n_intr == 1) WITNESS("first call: sleep interrupted once");
+#endif
+#if !defined(FIRST) && NEV >= 2
     if (r == -1 && n_intr == 2) WITNESS("first call: sleep interrupted twice");
+#endif
 #endif
     // second blocking call
 #if SCN == 1 || SCN == 2
